@@ -34,14 +34,14 @@ var c19Check = &impCheck{
 		}
 		return false
 	},
-	sys: newRawSystem("NewFile", "", []string{"C", "b/C", "fmt"}, map[string]string{"b/C": "C", "C": "C"},
+	sys: newRawSystem("NewFile", "", []string{"C", "b/C", "fmt", "9fans.net/go"}, map[string]string{"b/C": "C", "C": "C"},
 		[]string{"C", "c", "."}, []int{0}, true, "pkg",
 		rawOp{"CgoPreamble(one-line)", func(w *imp.World) { w.CgoPreamble("#include <a.h>") }},
 		rawOp{"CgoPreamble(multi-line)", func(w *imp.World) { w.CgoPreamble("int f(void);\nint g(void);") }}),
 	bfsDepth: [2]int{4, 5},
 	dev:      [2]int{3, 5},
 	fams: []*family{
-		{name: "cgo", ctors: []string{"NewFile", "NewFilePathName"}, local: "l/p", paths: []string{"C", "b/C", "a/c", "fmt", "os", "x/y"},
+		{name: "cgo", ctors: []string{"NewFile", "NewFilePathName"}, local: "l/p", paths: []string{"C", "b/C", "a/c", "fmt", "os", "x/y", "9fans.net/go", "B/b"},
 			names:   map[string]string{"b/C": "C", "a/c": "c", "C": "C", "x/y": "y"},
 			aliases: []string{"C", "c", ".", "_"}, prefixes: []string{"pkg", "C"}, maxRefs: 4, freeRefs: 2, wrappers: []int{0, imp.WrapperIndex("dictkey")},
 			anon: true, extra: true, last: true, doubles: true, preambleOpts: c19Preambles},
@@ -51,7 +51,7 @@ var c19Check = &impCheck{
 func init() {
 	register(&Check{ID: "C19", Level: "model_checking", Run: func(r *ev.Recorder) {
 		r.Rule = "(1) explicit-state BFS over one real File: Qual(\"C\", s), Anon(\"C\"), ImportName(\"C\", x), ImportAlias(\"C\", C|c|.), the same for a package b/C whose real name is C and for fmt, one-line and multi-line CgoPreamble blocks, PackagePrefix - in every order up to the depth bound. " +
-			"(2) canonical histories: every reference sequence over {C, b/C, a/c, fmt, os, x/y} x 9 preamble lists (0-2 blocks; one-line, one-line with trailing newline, multi-line, raw /* */ and // forms) x hints naming \"C\" (ImportName, ImportAlias C, c, ., _ ; double hints; hints after the references) x Anon x prefix {pkg, C}, within the deviation bound. " +
+			"(2) canonical histories: every reference sequence over {C, b/C, a/c, fmt, os, x/y, 9fans.net/go, B/b} (paths that sort before and after \"C\") x 9 preamble lists (0-2 blocks; one-line, one-line with trailing newline, multi-line, raw /* */ and // forms) x hints naming \"C\" (ImportName, ImportAlias C, c, ., _ ; double hints; hints after the references) x Anon x prefix {pkg, C}, within the deviation bound. " +
 			"Oracle on the parsed output: exactly one spec with path \"C\", without a name; every reference built with \"C\" is C.sym; with a preamble the spec is alone in its declaration, its doc comment consists of the preamble blocks' text in order, there is no blank line between doc and import, and all other specs come in an earlier declaration; without a preamble it has no doc; plus C04's exactness and C03's type check (FakeImportC). " +
 			"distinct_nontrivial = distinct outputs importing \"C\" together with a preamble or another import"
 		r.Assume = []string{"comment text is compared line-wise, trimmed (gofmt may re-indent block comments)", "histories beyond the depth / deviation bounds are outside the bound"}
